@@ -20,7 +20,8 @@ import json, os, copy, re
 import vlib
 
 PKG = "pkg/phantoms"
-FILES = ["common/vcommon_test.go", "pkg_phantoms/derive_interp_verif_test.go", "pkg_phantoms/phantom_verif_test.go"]
+FILES = ["common/vcommon_test.go", "pkg_phantoms/derive_interp_verif_test.go", "pkg_phantoms/phantom_verif_test.go",
+         "pkg_phantoms/phantom_history_verif_test.go"]
 
 
 def run(ctx):
@@ -73,6 +74,20 @@ def run(ctx):
     ctx.log("B: generated %(configs)d configs, %(calls)d calls, %(selected)d selected / %(errors)d errors, %(malformed)d malformed, %(violations)d violations"
             % summ["generated"])
     ctx.log("B: purity %(calls)d concurrent calls, %(divergent)d divergent" % summ["purity"])
+    # history independence: a long-lived selector vs a fresh one for every call of a seeded sequence; configuration unchanged
+    hp = os.path.join(ctx.scratch, "phantom_history.ndjson")
+    ctx.go_test(PKG, FILES, "phantoms", "^TestVerifPhantomHistory$",
+                env={"VERIF_OUT": hp, "VERIF_CONFIGS": 300 if thorough else 40, "VERIF_OPS": 120 if thorough else 60}, timeout=1800)
+    hrows = ctx.read_results(hp)
+    hs = [x for x in hrows if x.get("kind") == "summary"]
+    if not hs:
+        raise vlib.InfraError("history driver did not finish")
+    for x in hrows:
+        if x.get("kind") == "histviol":
+            key = "history:%s" % x["what"] + (":%s:lv%s" % (x["op"], x["lv"]) if "op" in x else "")
+            ctx.violation(key, "selection is not a function of its inputs alone: %s (%s)" % (x["what"], json.dumps({k: x[k] for k in x if k not in ("kind", "what")})[:500]), x)
+    ctx.log("B: history %(calls)d calls over %(configs)d configs, %(depends)d history-dependent results, %(rewritten)d configurations rewritten" % hs[0])
+    ctx.stage("B", history=hs[0])
 
     # (i) replay mismatches
     for m in [x for x in rows if x.get("kind") == "mismatch"]:
